@@ -3,7 +3,7 @@ from pathlib import Path
 LIBS = ["libavoid"]
 HARNESS = "harness/c16.cpp"
 DRIVER_MODE = "c16"
-LEAN_MODULES = ["AdaptaVerif.Props.C16"]
+LEAN_MODULES = ["AdaptaVerif.Props.C16", "AdaptaVerif.Props.C16Tie"]
 LEVEL = "proof"
 LEVEL_TEXT = ("Machine-checked Lean 4 theorems, for all rational inputs, that each geometry predicate equals its geometric "
               "meaning (orientation sign, proper crossing, open-segment membership, half-plane intersection, intersection point on "
@@ -30,7 +30,7 @@ EXHAUSTIVE = {"quick": True, "thorough": True}
 def regenerate(ROOT, REPO):
     sys.path.insert(0, str(Path(ROOT) / "tools" / "cpp2lean"))
     import jobs
-    return jobs.regenerate(["geometry"], Path(ROOT), Path(REPO))
+    return jobs.regenerate(["geometry", "geometry2"], Path(ROOT), Path(REPO))      # geometry2: inPolyGen, segmentShapeIntersect (Props/C16Tie.lean)
 
 def plan(tier, seed, searching):
     return [dict(hargs=["--seed", str(seed), "--tier", tier, "--scale", "8" if searching else "1"])]
